@@ -491,6 +491,40 @@ func c10Violation(lb *lexer.Builder, src []byte, kind string) core.Violation {
 // the independent scan says, and its after-newline flag is set iff a line feed lies between it and the
 // previous token (whoever built that one).
 func c10PluginCheck(lb *lexer.Builder, src string) (kind, detail string) {
+	return c10PluginCheckF(lb, src, false)
+}
+
+// c10PowBuilder: variant 0 = the repository's example (struct-literal token), 1 = the same plugin written with
+// the lexer's own constructors.
+func c10PowBuilder(variant int) *lexer.Builder {
+	lbx := lexer.NewBuilder()
+	pow := lbx.RegisterTokenType("pow")
+	pow2 := lbx.RegisterTokenType("pow2")
+	lbx.UseTokenInterceptor(func(l *lexer.Lexer, next func() token.Token) token.Token {
+		if l.CurrentChar != '^' {
+			return next()
+		}
+		if variant == 0 {
+			pos := token.Position{Line: l.Line, Column: l.Column}
+			l.ReadChar()
+			return token.Token{Type: pow, Literal: "^", Start: pos, End: pos}
+		}
+		if l.PeekChar() == '^' {
+			line, col := l.Line, l.Column
+			l.ReadChar()
+			l.ReadChar()
+			return l.NewTokenAt(pow2, "^^", line, col)
+		}
+		t := l.NewToken(pow, "^")
+		l.ReadChar()
+		return t
+	})
+	return lbx
+}
+
+// c10PluginCheckF: with libraryBuilt, the plugin builds its tokens through the lexer's own constructors
+// (NewToken / NewTokenAt), so slice and after-newline flag are checked for them as well.
+func c10PluginCheckF(lb *lexer.Builder, src string, libraryBuilt bool) (kind, detail string) {
 	defer func() {
 		if r := recover(); r != nil {
 			kind, detail = "panic", fmt.Sprint(r)
@@ -511,8 +545,8 @@ func c10PluginCheck(lb *lexer.Builder, src string) (kind, detail string) {
 		if strings.Trim(gap, " \n") != "" {
 			return "plugin-gap", fmt.Sprintf("token %d %v: bytes %q between the tokens were skipped", i, t, gap)
 		}
-		if t.Literal != "^" {
-			if src[off:off+len(t.Literal)] != t.Literal {
+		if t.Literal != "^" || libraryBuilt {
+			if off+len(t.Literal) > len(src) || src[off:off+len(t.Literal)] != t.Literal {
 				return "plugin-literal", fmt.Sprintf("token %d %v does not match the source at offset %d", i, t, off)
 			}
 			if want := strings.Contains(gap, "\n"); t.AfterNewline != want {
@@ -692,16 +726,7 @@ func c10Run(c *core.Ctx) {
 	// built as a struct literal. Tokens built by the library around it keep exact positions and after-newline
 	// flags: all byte strings <= 5 over {a ^ LF SP + (}
 	{
-		lbx := lexer.NewBuilder()
-		pow := lbx.RegisterTokenType("pow")
-		lbx.UseTokenInterceptor(func(l *lexer.Lexer, next func() token.Token) token.Token {
-			if l.CurrentChar == '^' {
-				pos := token.Position{Line: l.Line, Column: l.Column}
-				l.ReadChar()
-				return token.Token{Type: pow, Literal: "^", Start: pos, End: pos}
-			}
-			return next()
-		})
+		lbx := c10PowBuilder(0)
 		alpha := []byte{'a', '^', '\n', ' ', '+', '('}
 		for L := 1; L <= 5; L++ {
 			gen.EachSeq(len(alpha), L, func(idx []int) bool {
@@ -719,6 +744,36 @@ func c10Run(c *core.Ctx) {
 				if k, d := c10PluginCheck(lbx, src); k != "" && c.ShrinkOK("plug"+k) {
 					pl, _ := json.Marshal(c10Payload{Src: []byte(src), Pow: true})
 					c.Violate(core.Violation{Kind: k, Config: "plugin-token", Case: fmt.Sprintf("%q", src), Detail: d, Payload: pl, Size: L})
+				}
+				return true
+			})
+		}
+	}
+
+	// (1e') the same kind of plugin written with the lexer's own token constructors: '^' through NewToken before
+	// ReadChar (as the base lexer does for one-character tokens), '^^' through NewTokenAt after reading both
+	{
+		lbx := c10PowBuilder(1)
+		alpha := []byte{'a', '^', '\n', ' ', '+', '(', '/'}
+		for L := 1; L <= 5; L++ {
+			gen.EachSeq(len(alpha), L, func(idx []int) bool {
+				if !c.Next() || c.Tick() {
+					return true
+				}
+				b := make([]byte, L)
+				for i, x := range idx {
+					b[i] = alpha[x]
+				}
+				src := string(b)
+				if strings.Contains(src, "//") {
+					return true // the gap model of this oracle knows blanks and line feeds only
+				}
+				c.Cur(src)
+				c.Inc("inputs")
+				c.Inc("plugin_token_inputs")
+				if k, d := c10PluginCheckF(lbx, src, true); k != "" && c.ShrinkOK("plugc"+k) {
+					pl, _ := json.Marshal(c10Payload{Src: []byte(src), Pow: true, Policy: -1})
+					c.Violate(core.Violation{Kind: k, Config: "plugin-token built with NewToken/NewTokenAt", Case: fmt.Sprintf("%q", src), Detail: d, Payload: pl, Size: L})
 				}
 				return true
 			})
@@ -902,6 +957,16 @@ func c10Replay(pl json.RawMessage) (string, []core.Violation) {
 	out := fmt.Sprintf("source %q\n", src)
 	for i, t := range toks {
 		out += fmt.Sprintf("  %d: %v nl=%v\n", i, t, t.AfterNewline)
+	}
+	if p.Pow {
+		variant := 0
+		if p.Policy == -1 {
+			variant = 1
+		}
+		if k, d := c10PluginCheckF(c10PowBuilder(variant), src, variant == 1); k != "" {
+			return out + "consuming '^' token interceptor", []core.Violation{{Kind: k, Case: fmt.Sprintf("%q", src), Detail: d}}
+		}
+		return out, nil
 	}
 	if p.Policy > 0 {
 		if k, d := c10QueueCheck(p.Policy, src); k != "" {
